@@ -381,6 +381,44 @@ impl From<u32> for Inh {
     fn from(x: u32) -> Inh { Inh(x) }
 }
 
+/// `Sh(x)`: implements the eight standard traits like `u8` does, and in addition has *inherent* methods named like the
+/// trait methods that behave differently (and leave a trace).  Generated code that goes through the traits never reaches
+/// them; `self.f.clone()` / `a.eq(b)`-style code would.
+pub struct Sh(pub u8);
+impl Sh {
+    pub fn clone(&self) -> Sh { trace("inherent clone".to_string()); Sh(177) }
+    pub fn clone_from(&mut self, _o: &Sh) { trace("inherent clone_from".to_string()); self.0 = 178; }
+    pub fn eq(&self, _o: &Sh) -> bool { trace("inherent eq".to_string()); self.0 == 200 }
+    pub fn ne(&self, _o: &Sh) -> bool { trace("inherent ne".to_string()); self.0 != 200 }
+    pub fn partial_cmp(&self, _o: &Sh) -> Option<std::cmp::Ordering> { trace("inherent partial_cmp".to_string()); None }
+    pub fn cmp(&self, _o: &Sh) -> std::cmp::Ordering { trace("inherent cmp".to_string()); std::cmp::Ordering::Greater }
+    pub fn hash<HH: Hasher>(&self, h: &mut HH) { trace("inherent hash".to_string()); h.write_u8(0xEE) }
+    pub fn fmt(&self, f: &mut std::fmt::Formatter<'_>) -> std::fmt::Result { f.write_str("INHERENT") }
+    pub fn default() -> Sh { Sh(199) }
+}
+impl Clone for Sh {
+    fn clone(&self) -> Sh { Sh(self.0) }
+}
+impl PartialEq for Sh {
+    fn eq(&self, o: &Sh) -> bool { self.0 == o.0 }
+}
+impl Eq for Sh {}
+impl PartialOrd for Sh {
+    fn partial_cmp(&self, o: &Sh) -> Option<std::cmp::Ordering> { Some(self.0.cmp(&o.0)) }
+}
+impl Ord for Sh {
+    fn cmp(&self, o: &Sh) -> std::cmp::Ordering { self.0.cmp(&o.0) }
+}
+impl Hash for Sh {
+    fn hash<HH: Hasher>(&self, h: &mut HH) { h.write_u8(self.0) }
+}
+impl std::fmt::Debug for Sh {
+    fn fmt(&self, f: &mut std::fmt::Formatter<'_>) -> std::fmt::Result { write!(f, "Sh({})", self.0) }
+}
+impl Default for Sh {
+    fn default() -> Sh { Sh(3) }
+}
+
 // ---------------------------------------------------------------------------
 // Term: free, non-commutative term algebra for operators; W: wrapping integer
 // ---------------------------------------------------------------------------
